@@ -63,7 +63,7 @@ let run (st : stream) (b : Buffer.t) : unit =
         let o = read_out st in
         outs := o :: !outs;
         Printf.bprintf b "OUTCHK c01=%s c02=%s c03=%s c04=%s c05=%s c07=%s\n"
-          (codes (check_C01 nw o)) (codes (check_C02 nw o)) (codes (check_C03 nw o)) (codes (check_C04 nw o))
+          (codes (check_C01 nw o)) (codes (check_C02 nw o)) (codes (check_C03 nw o)) (codes (check_C04 nw o @ check_C04_vv nw o))
           (codes (check_C05 nw o)) (codes (check_C07 nw o));
         Printf.bprintf b "EVAL unserved=%s viol=%s costs=%s lb=%s\n" (zs (eval_unserved nw o))
           (zs (eval_violation nw o)) (zs (eval_costs nw o)) (zs (lower_bound nw))
